@@ -153,6 +153,7 @@ impl Report {
             "counters": self.counters,
             "maxima": self.maxima,
             "distinct_sets": sets,
+            "distinct_set_hashes": self.sets.iter().filter(|(_, v)| v.len() <= 50_000).map(|(k, v)| (k.clone(), v.iter().map(|h| format!("{:x}", h)).collect::<Vec<_>>())).collect::<BTreeMap<String, Vec<String>>>(),
             "samples": self.samples,
             "violations": self.violations,
             "violations_total": self.violations_total,
